@@ -341,6 +341,22 @@ def check(src, rep):
                     elif not okg:
                         V("R3", "selection-guard", "a reader is selected without one of ITS messages of this call being valid", l.node.lineno,
                           "; ".join(("" if pol else "not ") + show_sv(g)[:60] for g, pol, _ in p.guards))
+    # conversely: a valid message of the candidate selects it -- no further condition on the message (payload, type, ...) may stand in the way
+    for l, parent, depth in all_loops:
+        for p in l.body:
+            valid_true = False
+            for g, pol, _ in p.guards:
+                gs = strip_epoch(g)
+                if gs[0] == "call" and gs[1] == "any" and len(gs[2]) == 1 and gs[2][0][0] == "gen":
+                    gs = gs[2][0][1]
+                b, nm = attr_of(gs)
+                if nm == "is_valid" and pol and b[0] == "iter" and cand_loop is not None:
+                    r = read_call(b[1], data)
+                    if r is not None and strip_epoch(r) == cand_loop.var:
+                        valid_true = True
+            if valid_true and p.status in ("run", "continue", "break", "return") and not any(e[0] == "write" and e[1] == SELF and e[2] == SEL for e in p.effects):
+                V("R3", "selection-extra-condition", "a candidate whose message of this call is valid is not selected on some path: selection depends on more than is_valid (e.g. on the payload), so the chunk's "
+                  "messages are dropped and another reader can take the selection later", l.node.lineno, "; ".join(("" if pol else "not ") + show_sv(g)[:60] for g, pol, _ in p.guards))
     for p in ends:
         for e in p.effects:
             if e[0] == "write" and e[1] == SELF and e[2] == SEL:
